@@ -290,6 +290,18 @@ def h_classification(eng):
     eng.prove("class.lists_follow_prefixes_in_declaration_order", z3.BoolVal(bool(ok)))
     strs_ok = ops.getitem(eng, ctx, "states_str") == ", ".join("v%d" % syms.index(s) for s in want["states"])
     eng.prove("class.printed_lists_use_the_symbols_text", z3.BoolVal(bool(strs_ok)))
+    # the printed texts (proved well-formed above) reach the module as they are: every placeholder that inserts a printed text is
+    # the bare lookup render.src[<node>], without a jinja2 filter or operation that could rewrite the text, and the equation list
+    # is one such placeholder per equation of the flat class
+    import re
+    tt = r.text if isinstance(r.text, str) else ""
+    holes = [h.strip() for h in re.findall(r"\{\{(.*?)\}\}", tt, flags=re.S)]
+    printed = [h for h in holes if "render.src" in h]
+    bad = [h for h in printed if not re.fullmatch(r"render\.src\[\w+\]", h)]
+    eng.prove("class.printed_texts_are_inserted_as_they_are", z3.BoolVal(bool(printed) and not bad), rewritten=bad)
+    loop = re.search(r"\{%-?\s*for\s+(\w+)\s+in\s+tree\.equations\s*-?%\}(.*?)\{%-?\s*endfor", tt, flags=re.S)
+    eq_ok = loop is not None and [h.strip() for h in re.findall(r"\{\{(.*?)\}\}", loop.group(2), flags=re.S)] == ["render.src[%s]" % loop.group(1)]
+    eng.prove("class.one_entry_per_equation_holding_its_printed_text", z3.BoolVal(bool(eq_ok)))
 
 
 HARNESSES = [("SympyGenerator.exitExpression/step", h_expression_step), ("SympyGenerator.exitExpression/closure", h_expression_closure),
